@@ -191,7 +191,7 @@ def linear_directed(rnd, cfg):
     """homo / random / weighted copolymer of directed units, prefix or end-group start."""
     n_u = rnd.choice([1, 1, 2, 2, 3])
     units = _units2(rnd, n_u, cfg.get("branchy", False))
-    did = rnd.choice(["", "", "", "1", "2", "12"])
+    did = rnd.choice(["", "", "", "1", "2", "12", "0"])
     tags = {"arch:linear_directed", f"units:{n_u}"}
     start_prefix = rnd.random() < 0.6
     end_suffix = rnd.random() < 0.6
@@ -308,7 +308,7 @@ def undirected(rnd, cfg):
     """'$' chemistry: AA-type units, closed by '$' end groups or prefix / suffix."""
     n_u = rnd.choice([1, 1, 2])
     units = _units2(rnd, n_u, cfg.get("branchy", False))
-    did = rnd.choice(["", "", "1", "3"])
+    did = rnd.choice(["", "", "1", "3", "0"])
     tags = {"arch:undirected", f"units:{n_u}"}
     start_prefix = rnd.random() < 0.5
     end_suffix = rnd.random() < 0.5
@@ -385,21 +385,25 @@ def alternating_ids(rnd, cfg):
     """strict alternation through descriptor ids (SI: [<1]A[>2], [<2]B[>1])."""
     a, b = [u[0] for u in rnd.sample(UNITS2, 2)]
     tags = {"arch:alternating_ids", "units:2"}
-    A = a.format("[<1]", "[>2]")
-    B = b.format("[<2]", "[>1]")
+    # the two ids; "no id" is an id of its own, different from id 0
+    i1, i2 = rnd.choice([("1", "2"), ("1", "2"), ("", "0"), ("0", "3"), ("", "7"), ("0", "")])
+    if i1 == "" or i2 == "":
+        tags.add("ids:none_vs_number")
+    A = a.format(f"[<{i1}]", f"[>{i2}]")
+    B = b.format(f"[<{i2}]", f"[>{i1}]")
     e = rnd.choice(ENDS)[0]
-    ends = [e.format("[<1]"), e.format("[<2]")]
+    ends = [e.format(f"[<{i1}]"), e.format(f"[<{i2}]")]
     mean_unit = (unit_mass(a) + unit_mass(b)) / 2
     dist, fam = make_dist(rnd, mean_unit, rnd.choice([2, 4, 6]), cfg.get("family"), cfg.get("safe_dist", False))
     tags.add("family:" + fam)
     if rnd.random() < 0.5:
         e2 = rnd.choice(ENDS)[0]
-        ends += [e2.format("[>1" + _w(rnd, 0.4) + "]"), e2.format("[>2]")]
+        ends += [e2.format(f"[>{i1}" + _w(rnd, 0.4) + "]"), e2.format(f"[>{i2}]")]
         rnd.shuffle(ends)
         text = "{[]" + A + ", " + B + "; " + ", ".join(ends) + "[]}" + dist
         tags.add("start:end_group")
     else:
-        text = rnd.choice(PLAIN) + "{[>2]" + A + ", " + B + "; " + ", ".join(ends) + "[]}" + dist
+        text = rnd.choice(PLAIN) + "{[>" + i2 + "]" + A + ", " + B + "; " + ", ".join(ends) + "[]}" + dist
         tags.add("start:prefix")
     tags.add("end:closed")
     return text, tags
